@@ -1280,3 +1280,58 @@ Theorem drop_finished_member W H fails s b idx now :
 Proof.
   intros Hf Ht. rewrite drop_finished_silent by exact Hf. now rewrite (mark_zombie_member W s b idx Ht).
 Qed.
+
+(* ------------------------------------------------------------------ C04_kept (partial): the drop phase *)
+Lemma mark_zombie_bars W s b : s_bars (mark_zombie W s b) = s_bars s.
+Proof. unfold mark_zombie. destruct (b_target (get_bar s b)); reflexivity. Qed.
+
+Lemma mark_zombie_rows W s b : kept_plus_live (mark_zombie W s b) = kept_plus_live s.
+Proof.
+  unfold mark_zombie, kept_plus_live. destruct (b_target (get_bar s b)) as [| |idx]; try reflexivity.
+  cbn [s_mp set_s_mp]. apply (ms_mark_zombie_spec W (s_mp s) idx).
+Qed.
+
+Lemma drop_finished_effects W H fails s b now :
+  finished (get_bar s b) = true ->
+  let s' := fst (fst (step W H fails s now (ODrop b))) in
+  snd (fst (step W H fails s now (ODrop b))) = [] /\
+  s_calls s' = s_calls s /\ kept_plus_live s' = kept_plus_live s /\
+  ms_orphans (s_mp s') = ms_orphans (s_mp s) /\
+  (forall j, finished (get_bar s' j) = finished (get_bar s j)).
+Proof.
+  intros Hf. cbv zeta. rewrite drop_finished_silent by exact Hf. cbn [fst snd].
+  split; [reflexivity|]. split; [apply mark_zombie_calls|]. split; [apply mark_zombie_rows|].
+  split.
+  - cbn [s_mp upd_bar set_s_bars]. unfold mark_zombie. destruct (b_target (get_bar s b)) as [| |idx]; try reflexivity.
+    apply (ms_mark_zombie_spec W (s_mp s) idx).
+  - intros j.
+    assert (Hg : forall i, get_bar (mark_zombie W s b) i = get_bar s i)
+      by (intros i; unfold get_bar; now rewrite mark_zombie_bars).
+    destruct (N.eq_dec j b) as [->|Hne].
+    + rewrite get_bar_upd_same. destruct (_ <? _)%nat; rewrite Hg; reflexivity.
+    + rewrite get_bar_upd_other by exact Hne. now rewrite Hg.
+Qed.
+
+(** C04_kept (partial): once every bar is finished, dropping the handles - any bars, any order,
+    any times - makes no TermLike call at all, so whatever the finishing draws painted stays on
+    the screen untouched; the bookkeeping conserves kept rows + rows the next draw would erase,
+    and no orphan line is lost. *)
+Theorem drops_of_finished_silent W H fails ops : forall s,
+  Forall (fun to => exists b, snd to = ODrop b /\ finished (get_bar s b) = true) ops ->
+  snd (run W H fails s ops) = [] /\
+  s_calls (fst (run W H fails s ops)) = s_calls s /\
+  kept_plus_live (fst (run W H fails s ops)) = kept_plus_live s /\
+  ms_orphans (s_mp (fst (run W H fails s ops))) = ms_orphans (s_mp s).
+Proof.
+  induction ops as [|[now o] r IH]; intros s Hall; cbn [run].
+  - repeat split.
+  - inversion Hall as [|? ? [b [Ho Hf]] Hr]; subst. cbn [snd] in Ho. subst o.
+    destruct (drop_finished_effects W H fails s b now Hf) as (He & Hc & Hk & Hor & Hfin).
+    destruct (step W H fails s now (ODrop b)) as [[s1 e] ok]. cbn [fst snd] in *.
+    assert (Hr' : Forall (fun to => exists b0, snd to = ODrop b0 /\ finished (get_bar s1 b0) = true) r).
+    { eapply Forall_impl; [|exact Hr]. intros [t o] [b0 [Ho0 Hf0]]. exists b0. split; [exact Ho0|].
+      now rewrite Hfin. }
+    destruct (IH s1 Hr') as (He2 & Hc2 & Hk2 & Hor2).
+    destruct (run W H fails s1 r) as [s2 e2]. cbn [fst snd] in *. subst e e2.
+    repeat split; congruence.
+Qed.
